@@ -61,7 +61,10 @@ class SpecEval:
         if not isinstance(a, Sym) and not isinstance(b, Sym):
             import operator
             return {ast.Lt: operator.lt, ast.LtE: operator.le, ast.Gt: operator.gt, ast.GtE: operator.ge}[type(op)](a, b)
-        az, bz = lift(a).z, lift(b).z
+        if lift(a).ty.kind in ("dec", "real") or lift(b).ty.kind in ("dec", "real"):
+            az, bz = to_real(a), to_real(b)
+        else:
+            az, bz = lift(a).z, lift(b).z
         return Sym(BOOL, {ast.Lt: az < bz, ast.LtE: az <= bz, ast.Gt: az > bz, ast.GtE: az >= bz}[type(op)])
     def v_Subscript(self, n):
         base = self.ev(n.value)
